@@ -596,4 +596,181 @@ theorem ref_step (s : BState) (P : List Frame) (i b : Nat) (cs st : List Nat) (b
   · show (relinkRef _ _ _ _).cachedRoot = _
     rw [(relinkRef_frame _ _ _ _).2.2, (wrapAt_frame _ _ _ _).2]; rfl
 
+
+/-! ## the climb of `alternative_or_next` -/
+
+/-- a frame the climb passes: `Alternative` / `Next` from either side, `ExceptIf` from the left -/
+def Frame.climbable (f : Frame) : Bool := f.k != .exceptIf || f.holeLeft
+
+/-- where the climb stops: below the `Entity`, or at the right operand of an `ExceptIf` -/
+def stopAt : List Frame → Prop
+  | [] => True
+  | f :: _ => f.k = .exceptIf ∧ f.holeLeft = false
+
+def topId : List Frame → Nat → Nat
+  | [], h => h
+  | f :: D, _ => topId D f.id
+
+theorem plug_id : ∀ (D : List Frame) (u : Sel), (plug D u).id = topId D u.id
+  | [], u => rfl
+  | f :: D, u => by rw [plug, plug_id D, Frame.fill_id]; rfl
+
+theorem climb_path (s : BState) (C : List Frame) (hk1 : (s.node 1).kind = .entity) (hC : stopAt C) :
+    ∀ (D : List Frame) (h fuel : Nat), D.length < fuel → (s.node h).parent = some (pid (D ++ C)) →
+      Seg s (D ++ C) h → (∀ f ∈ D, f.climbable = true) → (h :: pathIds (D ++ C)).Nodup →
+      s.climb fuel h = topId D h
+  | [], h, fuel + 1, _, hp, hseg, _, hnd => by
+    simp only [BState.climb, topId]
+    have : s.climbStep h = h := by
+      unfold BState.climbStep
+      simp only [List.nil_append] at hp hseg hnd
+      rw [hp]
+      cases C with
+      | nil => simp [pid, hk1]
+      | cons f C' =>
+        simp only [Seg, pid, stopAt] at hseg hC ⊢
+        obtain ⟨hk, hside, _⟩ := hseg
+        rw [hC.2] at hside
+        simp only [Bool.false_eq_true, ↓reduceIte] at hside
+        have hne : f.sib.id ≠ h := by
+          intro e
+          simp only [pathIds, List.nodup_cons, List.mem_cons, List.mem_append, not_or] at hnd
+          exact hnd.1.2.1 (e ▸ id_mem_ids f.sib)
+        simp only [hk, hC.1, SK.toNK, hside.1]
+        simp [hne]
+    simp [this]
+  | f :: D, h, fuel + 1, hfuel, hp, hseg, hcl, hnd => by
+    simp only [List.cons_append, Seg, pid] at hp hseg
+    obtain ⟨hk, hside, hpar, _, hrest⟩ := hseg
+    have hfc := hcl f (by simp)
+    have hne : f.id ≠ h := by
+      intro e
+      simp only [List.cons_append, pathIds, List.nodup_cons, List.mem_cons, not_or] at hnd
+      exact hnd.1.1 e.symm
+    have hstep : s.climbStep h = f.id := by
+      unfold BState.climbStep
+      rw [hp]
+      simp only [hk]
+      cases hfk : f.k
+      · simp only [Frame.climbable, hfk, bne_self_eq_false, Bool.false_or] at hfc
+        rw [hfc] at hside
+        simp only [↓reduceIte] at hside
+        simp [SK.toNK, hside.1]
+      · simp [SK.toNK]
+      · simp [SK.toNK]
+    simp only [BState.climb, hstep, hne, ↓reduceIte, topId]
+    refine climb_path s C hk1 hC D f.id fuel (by simp at hfuel; omega) hpar hrest
+      (fun g hg => hcl g (by simp [hg])) ?_
+    simp only [List.cons_append, pathIds, List.nodup_cons, List.mem_cons, List.mem_append, not_or,
+      List.nodup_append] at hnd ⊢
+    exact ⟨hnd.2.1.2, hnd.2.2.2.1⟩
+
+
+theorem length_le_pathIds : ∀ P : List Frame, P.length ≤ (pathIds P).length
+  | [] => by simp
+  | f :: P => by
+    have := length_le_pathIds P
+    simp only [pathIds, List.length_cons, List.length_append]; omega
+
+/-- `alternative` / `next_rule` on the invariant: the whole scope is wrapped -/
+theorem alt_step (s : BState) (D C : List Frame) (i b : Nat) (cs st : List Nat) (k : SK) (b' : Nat)
+    (hi : Inv s (plug (D ++ C) (.leaf i b cs))) (hs : s.stack = i :: st)
+    (hD : ∀ f ∈ D, f.climbable = true) (hC : stopAt C) :
+    ∃ s', s.doAltOrNext Quirks.today k.toNK b' = some s' ∧
+      Inv s' (plug C (.node k (s.nodes.length + 1) (plug D (.leaf i b cs)) (.leaf s.nodes.length b' []))) ∧
+      s'.nodes.length = s.nodes.length + 2 ∧ s'.stack = s.stack ∧ s'.cachedRoot = s.cachedRoot ∧
+      s'.last = some s.nodes.length := by
+  have hi' : Inv s (plug C (plug D (.leaf i b cs))) := by rw [← plug_append]; exact hi
+  obtain ⟨g1, _, _, _, g5, g6⟩ := hole_facts s (D ++ C) _ hi
+  simp only [Sel.id] at g1 g5
+  obtain ⟨hu, hseg⟩ := (rep_plug s (D ++ C) _).mp ⟨hi.rep, hi.top⟩
+  have hperm := ids_plug (D ++ C) (.leaf i b cs)
+  have hnd : (i :: pathIds (D ++ C)).Nodup := by
+    have := hperm.nodup_iff.mp hi.nodup; simpa [Sel.ids] using this
+  have hbd : ∀ j ∈ pathIds (D ++ C), j < s.nodes.length := fun j hj =>
+    (hi.bound j (hperm.mem_iff.mpr (by simp [hj]))).2
+  have hlen : (pathIds (D ++ C)).length + 3 = s.nodes.length := by
+    have := hperm.length_eq; have := hi.len; simp [Sel.ids] at *; omega
+  -- the state after the allocation of the new leaf
+  have hs1 : ∀ j, j < s.nodes.length → (s.alloc { kind := .leaf, blk := b' }).1.node j = s.node j := by
+    intro j hj; rw [node_alloc, if_neg (by omega)]
+  have hclimb : (s.alloc { kind := .leaf, blk := b' }).1.climb (s.alloc { kind := .leaf, blk := b' }).1.nodes.length i
+      = (plug D (.leaf i b cs)).id := by
+    rw [plug_id]
+    refine climb_path _ C (by rw [hs1 1 (by omega)]; exact hi.k1) hC D i _ ?_ (by rw [hs1 i g1]; exact g5) ?_ hD hnd
+    · have := length_le_pathIds (D ++ C); simp only [List.length_append, alloc_length] at this ⊢; omega
+    · exact Seg_congr s _ (D ++ C) i (hs1 1 (by omega)) (fun j hj => hs1 j (hbd j hj)) hseg
+  obtain ⟨h1, _, h3, h4, h5, _⟩ := hole_facts s C _ hi'
+  have hw := wrapSpec_relinkAlt s k.toNK _ (pid C) b' h1 h3 h4 h5
+  have hinv := wrap_inv s _ C _ k b' hi' hw
+  rw [doAltOrNext_eq s i st k.toNK b' hs]
+  simp only [hclimb]
+  refine ⟨_, rfl, hinv.of_nodes _ rfl, hw.len, ?_, ?_, rfl⟩
+  · show (relinkAlt _ _ _ _).stack = _
+    rw [(relinkAlt_frame _ _ _ _).2.1, (wrapAt_frame _ _ _ _).1]; rfl
+  · show (relinkAlt _ _ _ _).cachedRoot = _
+    rw [(relinkAlt_frame _ _ _ _).2.2, (wrapAt_frame _ _ _ _).2]; rfl
+
+theorem ids_plug_congr (P : List Frame) (u u' : Sel) (h : u.ids = u'.ids) : (plug P u).ids.Perm (plug P u').ids :=
+  (ids_plug P u).trans (h ▸ (ids_plug P u').symm)
+
+/-- the `Add` statements of a block are attached to its condition leaf -/
+theorem add_step (s : BState) (P : List Frame) (i b : Nat) (cs st : List Nat) (b' : Nat)
+    (hi : Inv s (plug P (.leaf i b cs))) (hs : s.stack = i :: st) :
+    ∃ s', s.step Quirks.today (.add b') = some s' ∧ Inv s' (plug P (.leaf i b (cs ++ [b']))) ∧
+      s'.nodes.length = s.nodes.length ∧ s'.stack = s.stack ∧ s'.cachedRoot = s.cachedRoot := by
+  refine ⟨s.modify i fun n => { n with concl := n.concl ++ [b'] }, by simp [BState.step, hs], ?_, by simp, rfl, rfl⟩
+  obtain ⟨g1, g2, _, g4, _, _⟩ := hole_facts s P _ hi
+  simp only [Sel.id] at g1 g2 g4
+  obtain ⟨hu, hseg⟩ := (rep_plug s P _).mp ⟨hi.rep, hi.top⟩
+  have hperm := ids_plug P (.leaf i b cs)
+  have hnd : (i :: pathIds P).Nodup := by
+    have := hperm.nodup_iff.mp hi.nodup; simpa [Sel.ids] using this
+  have hnm : ∀ j, j ≠ i → (s.modify i fun n => { n with concl := n.concl ++ [b'] }).node j = s.node j := by
+    intro j hj; rw [node_modify _ _ _ _ g1, if_neg hj]
+  have hself : (s.modify i fun n => { n with concl := n.concl ++ [b'] }).node i =
+      { s.node i with concl := (s.node i).concl ++ [b'] } := by rw [node_modify _ _ _ _ g1, if_pos rfl]
+  have hip : i ∉ pathIds P := (List.nodup_cons.mp hnd).1
+  obtain ⟨hrep', htop'⟩ := (rep_plug _ P (.leaf i b (cs ++ [b']))).mpr ⟨by
+      simp only [RepT] at hu ⊢
+      rw [hself]; exact ⟨hu.1, hu.2.1, by simp [hu.2.2.1], hu.2.2.2⟩,
+    Seg_congr s _ P i (hnm 1 (by omega)) (fun j hj => hnm j (by rintro rfl; exact hip hj)) hseg⟩
+  have hp2 := ids_plug_congr P (.leaf i b (cs ++ [b'])) (.leaf i b cs) rfl
+  refine ⟨hrep', htop', ?_, ?_, ?_, hp2.nodup_iff.mpr hi.nodup, ?_, ?_⟩
+  · rw [hnm 1 (by omega)]; exact hi.k1
+  · rw [hnm 1 (by omega)]; exact hi.p1
+  · rw [hnm 0 (by omega)]; exact hi.p0
+  · intro j hj; rw [modify_length]; exact hi.bound j (hp2.mem_iff.mp hj)
+  · rw [modify_length, hp2.length_eq]; exact hi.len
+
+theorem rootOf_path (s : BState) (hp1 : (s.node 1).parent = some 0) (hp0 : (s.node 0).parent = none) :
+    ∀ (P : List Frame) (h fuel : Nat), P.length + 2 ≤ fuel → (s.node h).parent = some (pid P) → Seg s P h →
+      s.rootOf fuel h = 0
+  | [], h, fuel + 2, _, hp, _ => by
+    simp only [BState.rootOf, hp, pid, hp1]
+    cases fuel <;> simp [BState.rootOf, hp0]
+  | f :: P, h, fuel + 1, hf, hp, hseg => by
+    simp only [Seg, pid] at hp hseg
+    simp only [BState.rootOf, hp]
+    exact rootOf_path s hp1 hp0 P f.id fuel (by simp at hf; omega) hseg.2.2.1 hseg.2.2.2.2
+
+/-- `with <branch>:` pushes the branch's condition leaf -/
+theorem enter_step (s : BState) (f : Frame) (P : List Frame) (n b : Nat) (cs : List Nat)
+    (hi : Inv s (plug (f :: P) (.leaf n b cs))) (hl : s.last = some n) :
+    s.step Quirks.today .enter = some { s with stack := n :: s.stack } := by
+  obtain ⟨_, g2, _, _, g5, _⟩ := hole_facts s (f :: P) _ hi
+  simp only [Sel.id, pid] at g2 g5
+  obtain ⟨hu, hseg⟩ := (rep_plug s (f :: P) _).mp ⟨hi.rep, hi.top⟩
+  have hperm := ids_plug (f :: P) (.leaf n b cs)
+  have hfb := hi.bound f.id (hperm.mem_iff.mpr (by simp [pathIds]))
+  have hlen : (pathIds (f :: P)).length + 3 = s.nodes.length := by
+    have := hperm.length_eq; have := hi.len; simp [Sel.ids] at *; omega
+  have hroot : s.rootOf s.nodes.length n = 0 := by
+    refine rootOf_path s hi.p1 hi.p0 (f :: P) n _ ?_ (by simpa [pid] using g5) hseg
+    have := length_le_pathIds (f :: P); omega
+  simp only [BState.step, hl, hroot, g5]
+  have h1 : ¬ n = 0 := by omega
+  have h2 : ¬ f.id = 0 := by omega
+  simp [h1, h2]
+
 end KrroodVerif.Rdr
